@@ -26,7 +26,8 @@ Edit a single block's contents.
 
 
 import logging
-from typing import Container, List, MutableMapping, Optional, Set
+import uuid
+from typing import Container, Dict, List, MutableMapping, Optional, Set
 
 import gtirb
 from more_itertools import pairwise
@@ -44,7 +45,11 @@ from ..utils import (
     _is_return_edge,
 )
 from .cache import ModifyCache
-from .edges import add_return_edges_to_callee, update_fallthrough_target
+from .edges import (
+    add_return_edges_to_callee,
+    returning_blocks,
+    update_fallthrough_target,
+)
 from .functions import add_function_block_aux
 from .join import UnjoinableBlocksError, join_blocks
 from .remove import remove_block
@@ -81,6 +86,11 @@ def _add_return_edges_for_patch_calls(
         for edge in new_cfg
         if _is_fallthrough_edge(edge)
     }
+    # The new return edges are only added to new_cfg and a callee's proxy
+    # return edges are dropped when it gets its first real one, so determine
+    # the returning blocks of each callee up front: a patch may call the same
+    # function more than once.
+    callee_returns: Dict[uuid.UUID, List[gtirb.CodeBlock]] = {}
     for call_edge in call_edges:
         if not isinstance(call_edge.target, gtirb.CodeBlock):
             continue
@@ -93,8 +103,18 @@ def _add_return_edges_for_patch_calls(
         if not fallthrough_target:
             continue
 
+        if func_uuid not in callee_returns:
+            callee_returns[func_uuid] = returning_blocks(
+                cache, module, func_uuid
+            )
+
         add_return_edges_to_callee(
-            cache, module, func_uuid, fallthrough_target, new_cfg
+            cache,
+            module,
+            func_uuid,
+            fallthrough_target,
+            new_cfg,
+            callee_returns[func_uuid],
         )
 
 
